@@ -23,7 +23,7 @@ PROPS = {
           "structural validation of its chain's parser or repeats a valid entry; distinct by hash of (start, kinds, chain summary).",
           quick=(8, 25), thorough=(16, 400)),
  "C20": P("TestC20", "exploration",
-          "batch texts: rapid builds canonical FAT-2 batch JSON (1-4 transactions, all tickers, amounts incl. 0, 2^63-1, 2^63, 2^64-1) and applies 0-2 "
+          "batch texts: rapid builds canonical FAT-2 batch JSON (1-4 transactions, all tickers, amounts incl. 0, 2^63-1, 2^63, 2^64-1; one transfer in eight has outputs that add up to the input only modulo 2^64) and applies 0-2 "
           "grammar-level mutations (duplicate/unknown/case-changed key at any depth, whitespace, number spellings, both/neither of transfers+conversion, "
           "second input address, bad/lower-case/double-quoted ticker, null values, trailing data, reordering, metadata, out-of-range numbers, bit flips); "
           "oracle: accepted by pegnetd's UnmarshalJSON+ValidData+int64 bound => accepted by an independent token-level strict acceptor (key case is a labelled "
@@ -34,12 +34,13 @@ PROPS = {
           quick=(4, 6000), thorough=(16, 150000), timeout=(300, 2400),
           fuzz=[("FuzzC20Batch", 120, "batch"), ("FuzzC20Amount", 60, "amount")]),
  "C19": P("TestC19", "exploration",
-          "rapid generates histories of 1-5 sessions (build sync-version 0..4, or a pre-tracking build as a prefix; 0-6 blocks each) and 0-3 forks "
+          "rapid generates histories of 1-5 sessions (build sync-version 0..4, or a pre-tracking build as a prefix; one tracking session in six is started with the hard-fork check disabled (--no-hf); 0-6 blocks each; "
+          "a refused start does nothing and the history goes on) and 0-3 forks "
           "(heights from 3 below the start to 3 above the tip, minimum versions 0..4) on top of the base {0,-1}; every session runs for real "
           "(NewPegnetd start-up check + DBlockSync of empty blocks with PegnetdSyncVersion/Hardforks set; a pre-tracking build is emulated by "
           "removing the version rows it would not have written). Oracle at every tracked start-up: refused iff the reference predicate over "
-          "the model map height->version says so. Thorough adds exhaustive small scope (<=3 sessions x <=3 blocks x versions {pre,0,1,2} x one fork "
-          "at every offset x minimum 0..2). Non-trivial = >=2 different versions synced blocks and a fork lies inside the synced range; distinct by case.",
+          "the model map height->version says so. Thorough adds exhaustive small scope, split over the shards (<=3 sessions x <=2 blocks x versions {pre,0,1,2} x {checked, forced} x one fork "
+          "at every offset x minimum 0..2: about 150,000 cases). Non-trivial = >=2 different versions synced blocks and a fork lies inside the synced range; distinct by case.",
           quick=(4, 250), thorough=(16, 1500), timeout=(300, 3000)),
  "C07": P("TestC07", "exploration",
           "function level: (PIP-10 on/off, amount 0..2^63-1, four rates over 0..2^64-1, all boundary-biased; averages equal to / 10% around / independent of spot) "
@@ -65,14 +66,17 @@ PROPS = {
           "rapid generates a 2.0.2+ base chain (with ungraded stretches so that held conversions stay pending) and one extra entry E built against the balances at its block "
           "(transfer that executes / transfer with insufficient funds / conversion that executes / conversion that will be rejected), then writes E 2-3 times: same block (adjacent or "
           "separated), next block, later blocks, i.e. while an earlier copy is pending, executed or rejected. Oracle (metamorphic): balances + every record of E in the chain with all "
-          "copies equal those of one of the chains that keep a single copy, or of the chain with none. Non-trivial = E has an effect or is a recorded rejection; distinct by (start, kind, places, size).",
+          "copies equal those of one of the chains that keep a single copy, or of the chain with none. Second oracle (sub-test once, model-free invariant over the SQL statement history of the sync goroutine, "
+          "on PEG-bank-era chains with holding windows over unrated heights, timeline and 2.0.2+ chains): counting only statements of block transactions that COMMIT, the outcome of a held transaction "
+          "(to_amount; PEG amount + refund of a PEG request) is written in at most one block and a PEG request at most once within it, and a batch is marked executed in at most one block. "
+          "Non-trivial = E has an effect or is a recorded rejection / a held outcome was written; distinct by (start, kind, places, size).",
           quick=(8, 10), thorough=(16, 150), timeout=(600, 3000)),
  "C05": P("TestC05", "exploration",
           "chain level: rapid generates a 2.0.2+ chain (RCD-e activation drawn around it) in which a properly signed entry E (transfer or conversion, RCD-1 or RCD-e) executes, "
           "and one tampered entry E' placed before/after E in the same block or up to two blocks later: single-bit flips of content / salt / RCD / signature, signature or RCD+signature "
-          "of another key, pair duplicated/dropped/swapped, signed for another chain id, salt altered, content re-spaced or amount edited under the old signature (all without the key), "
+          "of another key, pair duplicated/dropped/swapped, a batch signed by another key only in which one transaction (first / middle / last) spends from the owner (also with the signer's pair repeated), signed for another chain id, salt altered, content re-spaced or amount edited under the old signature (all without the key), "
           "and with the key but ineligible by rule: salt 1-3 s outside +-12 h, RCD-e entry at/before its activation height. Oracle (metamorphic, model-free): balances(chain+E') == balances(chain); "
-          "positive control: a fresh valid entry by the owner must change balances. function level: 40 built-or-mutated entries per rapid case around the RCD-e activation and the salt window edge; "
+          "positive control: a fresh valid entry by the owner must change balances. function level: 40 built-or-mutated entries per rapid case around the RCD-e activation and the salt window edge, a quarter of them with one transaction spending from an address whose key does not sign; "
           "oracle: accepted by fat2.NewTransactionBatch => accepted by the independent FAT-103 reference validator, and properly built entries are accepted. "
           "Non-trivial: chain cases all (control executed by construction); function cases accepted by either side. Distinct by content/placement.",
           quick=(8, 12), thorough=(16, 250), timeout=(600, 3000)),
@@ -81,7 +85,8 @@ PROPS = {
           "snapshot + developer payout height, with SPR sets, transfers, conversions and batches. A recording run lists every upstream request of the sync goroutine and its fetch workers "
           "(dblock, eblock, each entry, heights excluded) and every SQL call (begin/exec/query/prepared exec+query/commit, on the block's sql.Tx and on the pool). Each enumerated site is then "
           "failed once (upstream: transport error / HTTP 500 / JSON-RPC error / truncated body by ordinal; SQL: generic error or SQLITE_BUSY), the daemon is restarted if it exits, and it must "
-          "reach the tip with a ledger dump equal to the fault-free run. quick: 60 sampled sites per chain; thorough: ALL sites of each chain (counter chains_enumerated_exhaustively) plus 40 random pairs. "
+          "reach the tip with a ledger dump equal to the fault-free run. quick: 60 sites per chain, stratified by upstream request kind and by SQL operation + statement text (so every distinct statement "
+          "of the block pipeline gets a fault, in a drawn order); thorough: ALL sites of each chain (counter chains_enumerated_exhaustively) plus 40 random pairs. "
           "Non-trivial = every fired site (all belong to blocks with ledger effects or to the retry path); distinct by (chain, layer, ordinal, statement).",
           quick=(8, 1), thorough=(16, 1), timeout=(900, 3300), shrinktime="20s"),
  "C02": P("TestC02", "fault_enumeration",
@@ -90,15 +95,18 @@ PROPS = {
           "Crash points = (call k, before | after) for every call: a child daemon process (same test binary, real file database) syncs the chain and SIGKILLs itself at the point; plus, for every "
           "statement, 'a block fails': the statement returns an error and the daemon is stopped right after the failed attempt. Oracle: a fresh daemon opens the file; version rows are exactly "
           "start+1..H, each once, contiguous; synced metadata = H = the height implied by the crash point (h-1 before the COMMIT of block h returns, h after); ledger dump == D[H] (all of the blocks "
-          "<= H, nothing of H+1); after resuming to the tip ledger dump == D[tip]. quick: 40 points per chain (a third of them around COMMIT / sync-height writes); thorough: ALL points of each chain. "
+          "<= H, nothing of H+1); after resuming to the tip ledger dump == D[tip]. quick: 40 points per chain (a third of them around COMMIT / sync-height writes); thorough: up to 1,600 points per chain (chains with fewer are enumerated exhaustively, "
+          "longer ones keep every call around COMMIT and sample the rest). "
           "Non-trivial = the interrupted block issues >= 3 write statements; distinct by (chain, journal mode, call, before/after, mode).",
           quick=(8, 1), thorough=(16, 1), timeout=(900, 3300), shrinktime="20s", disk_scratch=True),
  "C18": P("TestC18", "exploration",
           "controlled schedules: rapid generates 2.0.5 (PIP-10) and 2.0.2 chains and 2-10 pause points = SQL call ordinals of the sync goroutine (two thirds around BEGIN / the sync-height writes / COMMIT, "
           "before or after the call), each with 1-3 API calls (get-sync-status, get-pegnet-issuance, get-pegnet-balances, get-rich-list over all assets, get-global-rich-list, get-pegnet-rates, "
-          "get-transaction-status, get-miner-distribution) served by the REAL JSON-RPC server on loopback while the sync goroutine is held inside the SQL hook. Oracles: (1) final ledger dump == dump of the run "
+          "get-transaction-status, get-miner-distribution, get-transactions by height / address, get-graded, get-bank for the block being applied and the last committed one) served by the REAL JSON-RPC server on loopback "
+          "while the sync goroutine is held inside the SQL hook. One call in five is dropped by its client in the middle of the handler (the handler is held at its k-th SQL call until the server has seen the "
+          "disconnect), and two schedules in three add a rich-list request dropped right when a block starts. Oracles: (1) final ledger dump == dump of the run "
           "without API calls; (2) every successful response equals what the reference per-height state implies for the LAST COMMITTED height (syncheight, issuance, balances, rich-list amounts, latest rates, "
-          "statuses); error responses are counted, not violations; (3) the daemon reaches the tip. soak: 2 (quick) / 12 (thorough) chains synced with 6 goroutines hammering the API, binary built with -race: "
+          "statuses; no history action, graded record or bank row of a height above it); error responses are counted, not violations; (3) the daemon reaches the tip. soak: 2 (quick) / 12 (thorough) chains synced with 6 goroutines hammering the API, binary built with -race: "
           "any race report whose accessing frames are pegnetd code is a violation; final dump == reference. Non-trivial = at least one call served while a block transaction is open; distinct by (chain, schedule).",
           quick=(8, 6), thorough=(16, 120), timeout=(900, 3300), race=True, shrinktime="30s"),
 
@@ -124,7 +132,9 @@ PROPS = {
           quick=(8, 12), thorough=(16, 220)),
  "C12": P("TestC12", "exploration",
           "rapid generates 2.0 chains crossing the developer-reward (1%/0.1% -> 10% band) and 2.0.2 (25% band with zeroing) activations in which every block has OPR and/or SPR winners, the SPR vector being per asset equal / inside / "
-          "just inside either edge / outside the band around the OPR vector (outside only where no registered finding is triggered), with conversions pending across blocks without rates; and timeline chains covering the PEG pricing "
+          "just inside / just outside either edge (the two neighbouring integers on either side of the boundary, or 0.01% / 0.04% away) / far outside the band around the OPR vector, a third of the perturbations aimed at assets "
+          "priced below the 100000 threshold that separates the 1% and 0.1% bands of the first rule set, and SPR values placed at 99998..100050 with the OPR value 0.5% away (out-of-band blocks before 2.0.2 also trigger the "
+          "registered finding C11/band-early-return; they are kept, thinned to a third, since the recorded rates are still as specified), with conversions pending across blocks without rates; and timeline chains covering the PEG pricing "
           "phases zero / equation (non-trivial supplies) / floating. Oracle: pn_rate rows of every height == rows the reference model derives from the grader's winners (band comparison replayed in float64 with a 1e-12 edge "
           "neighbourhood as don't-care; equation price with math/big over supplies at h-1); heights without winners have no rows; after the run every rated height still shows its rows and no other height has rows (immutability). "
           "Non-trivial = both winners present and an asset outside or near the band, or a timeline chain; distinct by (start, shape).",
@@ -132,11 +142,15 @@ PROPS = {
  "C13": P("TestC13", "exploration",
           "rapid places one activation A (OneWaypFCT / PegNet 2.0 / OneWaySmallAssets+2.0.2 / PIP-10 with a 4-block window) mid-chain; one address is funded with every asset of the era; 20-60 drawn (source, destination) pairs "
           "(a third aimed at PEG, pFCT and small-cap destinations) are submitted so that they execute at A-1, A and A+1. thorough additionally runs ALL ordered pairs of the era's assets at the three heights in a quarter of the cases. "
-          "Oracle (reference model): forbidden -> the specific negative code and no balance change; allowed and funded -> executed with the C07 amount. Non-trivial = the case has both forbidden and allowed conversions; distinct by (start, activation, counts).",
+          "PIP-10 family: 1-3 assets are zeroed by the 25% band rule in most blocks before A and in some of the submitting blocks, and a third of the pairs go into or out of them, so that conversions meet a zero rate, "
+          "or a spot rate that is back while the rolling average is still unavailable (on either side). "
+          "Oracle (reference model): forbidden -> the specific negative code and no balance change (a zero-delta watch event attributes any change of the two balances of a refused or unconvertible held conversion to C13); "
+          "allowed and funded -> executed with the C07 amount. Non-trivial = the case has both forbidden and allowed conversions; distinct by (start, activation, counts).",
           quick=(8, 10), thorough=(16, 60)),
  "C14": P("TestC14", "exploration",
           "rapid generates 2.0.2+ chains crossing 2-3 snapshot heights: 6-20 holders of 7 different assets (a quarter with exactly equal holdings), stake below or above the 4500x144 PEG cap (PEG priced 500-6000 USD when the conversions "
-          "execute), 0-4 movements between snapshots (out, to addresses absent from the previous snapshot, conversions between staked assets), snapshot heights without rates, assets zeroed by the 25% band rule at the snapshot block. "
+          "execute), 0-4 movements between snapshots (out, to addresses absent from the previous snapshot, conversions between staked assets), snapshot heights without rates (half of them right after a graded block whose "
+          "prices moved by up to 4%, so that 'the most recent earlier rates' are those of h-1), assets zeroed by the 25% band rule at the snapshot block. "
           "Oracle (reference model): stake_i = sum over non-PEG assets of floor(min(prev,cur)*rate/rate_USD); payout = stake (below the cap) or floor(stake*cap/total) + the dust for exactly one of the top stakers (resolved from "
           "the observed balances); absent from either snapshot -> nothing. Second, model-free (metamorphic): a variant chain in which an otherwise idle address converts some of its own PEG (never staked) into a staked asset strictly after "
           "snapshot k-1 must show exactly the base chain's staking records at snapshot k (counter late_funds_variants_with_executed_conversion). Non-trivial = >= 3 paid addresses and a binding min(); distinct by (start, shape).",
@@ -145,7 +159,8 @@ PROPS = {
           "rapid generates chains with the developer-reward activation 1-2 blocks after the start, 2.0.2 either before or after the first 144-multiple (so developer payouts happen under both the 2000 PEG and the 2000x144 PEG rule), "
           "the mint and mint-burn activations at drawn offsets, every alignment with the 144 cadence, and prior balances in several assets on the global burn and mint addresses (paid by generated transfers). Oracle with golden "
           "constants copied into the harness (14 developer addresses/percentages, 31 mint rows, special addresses): balance of every address after every block == model; in particular the special addresses change at no other height "
-          "than by transfers the generator sent. Non-trivial = a burn address with a balance is zeroed or >= 2 developer payouts; distinct by (start, activations, shape).",
+          "than by transfers the generator sent, and at the adjustment heights every balance of the burn and mint addresses (all 62 assets, also those the adjustment does not name) and every non-PEG balance of a developer "
+          "address at a payout height is C15's (zero-delta watch events). Non-trivial = a burn address with a balance is zeroed or >= 2 developer payouts; distinct by (start, activations, shape).",
           quick=(8, 10), thorough=(16, 150)),
  "C16": P("TestC16", "exploration",
           "rapid generates legacy chains (PegnetConversionLimit active, V4 update 4-12 blocks in, PegNet 2.0 never): 12 addresses funded by FCT burns, 0-6 PEG requests per block sized at 1%-150% of the 5,000 PEG bank (a quarter "
@@ -159,7 +174,8 @@ PROPS = {
           "model's amounts. O2 history replay: starting from empty balances, every recorded action with executed > 0 (transfers with their outputs minus burn-address outputs, conversions with the recorded to_amount and refunds, coinbases "
           "incl. negative zeroing rows, FCT burns), applied per execution height together with the three adjustments that by design have no rows (2.0.2 burn zeroing, mint, mint burn), must reproduce pn_addresses exactly. "
           "O3 paging through the REAL JSON-RPC server: for the 12 busiest addresses (ascending and descending), 25 sampled entry hashes and 15 heights, following nextoffset from 0 returns every recorded action (cross-checked with an "
-          "independent SQL read) exactly once and count equals the number returned. Non-trivial = every case (all contain executed, rejected and pending batches by construction of the generators; counted); distinct by chain.",
+          "independent SQL read) exactly once, count equals the number returned, and every field the API reports for an action (hash, index, executed, action type, from address/asset/amount, to asset/amount, outputs, timestamp) "
+          "equals the history tables and is the same in every query that returns it. Non-trivial = every case (all contain executed, rejected and pending batches by construction of the generators; counted); distinct by chain.",
           quick=(8, 10), thorough=(16, 150)),
 }
 
